@@ -15,9 +15,9 @@ def run(ctx):
                     "rejected candidate fully discarded, termination", workers=vlib.NCPU)
     uni = charfam.tlc_universe(ctx, 3, 2 if quick else 3)
     rng.shuffle(uni)
-    scen = [charfam.concretize(s, rng) for s in uni[: (220 if quick else 2500)]]
-    scen += charfam.seeded_small(ctx, rng, 60 if quick else 600)
-    scen += charfam.seeded_flag_trees(ctx, rng, 10 if quick else 80)
+    scen = [charfam.concretize(s, rng) for s in uni[: (220 if quick else 9000)]]
+    scen += charfam.seeded_small(ctx, rng, 60 if quick else 2500)
+    scen += charfam.seeded_flag_trees(ctx, rng, 10 if quick else 250)
     files, cells, leaves = charfam.run_scenarios(ctx, scen, "c02")
     sf, sc_, sl = charfam.run_sequences(ctx, charfam.collision_sequences(), "c02")
     files, cells, leaves = files + sf, cells + sc_, leaves + sl
